@@ -183,6 +183,30 @@ func checkHist(c *HistCase) *Outcome {
 		}
 	}
 	vals := map[string]map[string]*m.Val{"A": c.ValsA, "B": c.ValsB}
+	// raw value environments are inputs too: their bindings must read the same after every step
+	rawEnvText := func(vo vobj) string {
+		ve, isRaw := vo.obj.(*val.Env)
+		if !isRaw {
+			return ""
+		}
+		var b strings.Builder
+		for _, n := range sortedNames(vals[vo.tag]) {
+			v, okk := ve.Get(n)
+			if !okk {
+				fmt.Fprintf(&b, "%s=<missing> ", n)
+				continue
+			}
+			if v.Type != nil && v.Type.Kind == types.KFun {
+				continue
+			}
+			fmt.Fprintf(&b, "%s=%s ", n, renderVal(v))
+		}
+		return b.String()
+	}
+	rawBefore := make([]string, len(valObjs))
+	for i, vo := range valObjs {
+		rawBefore[i] = rawEnvText(vo)
+	}
 	var callables []compiled
 	var results []*val.Val
 	var resultRenderings []string
@@ -313,6 +337,11 @@ func checkHist(c *HistCase) *Outcome {
 			if vo.twin != nil && !reflect.DeepEqual(vo.obj, vo.twin) {
 				return bad("%s modified the host value\n history:%s", what, history(step))
 			}
+			for i, o := range valObjs {
+				if now := rawEnvText(o); now != rawBefore[i] {
+					return bad("%s modified the value environment %s: it read %s, now reads %s\n src: %s\n history:%s", what, o.name, rawBefore[i], now, r.Src, history(step))
+				}
+			}
 		case "eval", "debug":
 			var hosts []vobj
 			for _, vo := range valObjs {
@@ -373,6 +402,15 @@ func checkHist(c *HistCase) *Outcome {
 		classes = append(classes, "invocation-nested-in-an-evaluation")
 	}
 	return ok(reuse > 0 && (multiMap || len(results) > 1), classes...)
+}
+
+func sortedNames(mp map[string]*m.Val) []string {
+	ks := make([]string, 0, len(mp))
+	for k := range mp {
+		ks = append(ks, k)
+	}
+	sortStringsInPlace(ks)
+	return ks
 }
 
 func hasBigMap(v *m.Val) bool {
@@ -446,7 +484,7 @@ var c13repeatOpt = gen.ProgOpt{Fuel: 4, Partial: true, Sugar: false, Maybe: true
 var c13repeat = Register(&Prop[ProgCase]{ID: "C13", Name: "repeat", Gen: genProgCase(c13repeatOpt, nil), Check: checkRepeat})
 
 func TestC13(t *testing.T) {
-	R.Rule = "histories of 3-25 operations over a pool of <= 4 expressions (results with multi-entry maps, objects, set operations, string(x), print), three engine instances (VM, closure, VM) and deliberately reused environment objects (one raw *types.Env, two raw *val.Env with different contents, host structs and maps): compile(expr, type object) on engine i; invoke(callable, value object); one-shot Eval; Debug; render an earlier result 16 times; one compile in three wraps the expression in a template calling the identity host function nest, and while nest runs inside an invocation another callable - possibly the very one being evaluated - is invoked to completion (an invocation nested in an evaluation, depth <= 2); oracle after every step: outcome = the reference evaluator on (expression, environment contents) alone, captured standard output = exactly the print lines, host values deep-equal to an identically built twin, renderings never vary, an environment object used once is accepted again; plus repeated fresh evaluation of single programs (6 x 2 back ends) with identical result text and output; plus one source text (13 templates over overloaded / polymorphic built-ins) compiled 2-5 times on ONE engine against environments that give its variables different types, each step compared with a fresh engine; non-trivial = an environment object reused after another operation and a result with a multi-entry map or >= 2 results"
+	R.Rule = "histories of 3-25 operations over a pool of <= 4 expressions (results with multi-entry maps, objects, set operations, string(x), print), three engine instances (VM, closure, VM) and deliberately reused environment objects (one raw *types.Env, two raw *val.Env with different contents, host structs and maps): compile(expr, type object) on engine i; invoke(callable, value object); one-shot Eval; Debug; render an earlier result 16 times; one compile in three wraps the expression in a template calling the identity host function nest, and while nest runs inside an invocation another callable - possibly the very one being evaluated - is invoked to completion (an invocation nested in an evaluation, depth <= 2); oracle after every step: outcome = the reference evaluator on (expression, environment contents) alone, captured standard output = exactly the print lines, host values deep-equal to an identically built twin, every binding of the raw value environments reads as before, renderings never vary, an environment object used once is accepted again; plus repeated fresh evaluation of single programs (6 x 2 back ends) with identical result text and output; plus one source text (13 templates over overloaded / polymorphic built-ins) compiled 2-5 times on ONE engine against environments that give its variables different types, each step compared with a fresh engine; non-trivial = an environment object reused after another operation and a result with a multi-entry map or >= 2 results"
 	R.Assume = []string{"ref.Eval and the characterised rendering of print"}
 	reportKnown(t, "C13")
 	runRegress(t, "C13")
